@@ -69,3 +69,11 @@ Definition adv_es_jwe (c : cfg) (skid : option kref) (m : N) (rcpts : list N) (r
   let j := pack_jwe_anon c m rcpts rn in
   let p := p_set_skid skid (match j_prot j with Some p => p | None => phdr0 end) in
   reenc_jwe (cek_of rn) m (set_prot (Some p) j).
+
+(* a complete ECDH-1PU JWE made with the public API by someone who holds the static key [actual] but names
+   [claimed] as the sender (skid, apu) *)
+Definition adv_1pu_jwe (c : cfg) (a : kwalg) (m claimed actual : N) (rcpts : list N) (rn : rnd) : jwe :=
+  let j := pack_jwe_auth c a m claimed rcpts rn in
+  let wk r := Wrap (kek_1pu a (dh (rn_eph rn) r) (dh actual r) (t_kref (kref_for (style_of c) claimed))
+                            (apv_1pu (map (kref_for (style_of c)) rcpts)) (j_tag j)) (cek_of rn) in
+  set_recs (map (fun rr => mkrcp (r_hdr (fst rr)) (wk (snd rr))) (combine (j_recs j) rcpts)) j.
